@@ -1080,6 +1080,50 @@ def dest_modes():
     return modes
 
 
+_UNREADABLE = None
+
+
+def unreadable_ok():
+    """Can this user still read a file whose mode denies it (root)?  The directory scan needs that (probe, cached)."""
+    global _UNREADABLE
+    if _UNREADABLE is None:
+        d = tempfile.mkdtemp(prefix="c04probe_", dir=TMP_ROOT)
+        try:
+            p = os.path.join(d, "x")
+            with open(p, "wb") as f:
+                f.write(b"abc")
+            os.chmod(p, 0)
+            with open(p, "rb") as f:
+                _UNREADABLE = f.read() == b"abc"
+        except OSError:
+            _UNREADABLE = False
+        finally:
+            shutil.rmtree(d, ignore_errors=True)
+    return _UNREADABLE
+
+
+def gen_perms(rng):
+    """Explicit file_perms: not given (1/3), ordinary values, and boundary values - 0 (falsy!), single bits, the
+    value the umask would give anyway ("default", resolved once the umask is drawn), all twelve bits."""
+    r = rng.random()
+    if r < 0.34:
+        return None
+    if r < 0.64:
+        return rng.choice([0o600, 0o644, 0o640, 0o444 | 0o200])
+    choices = ["default", 0o600, 0o666]
+    if unreadable_ok():
+        choices += [0, 0, 0o400, 0o200, 0o100, 0o040, 0o004, 0o001, 0o007, 0o070]
+    if special_bits_ok():
+        choices += [0o2640, 0o4000, 0o2000, 0o1000, 0o7777, 0o4755]
+    return rng.choice(choices)
+
+
+def resolve_perms(cfg, umask):
+    if cfg.get("file_perms") == "default":
+        cfg["file_perms"] = 0o666 & ~umask
+    return cfg
+
+
 def gen_cfg(rng):
     text = rng.random() < 0.4
     body_big = False
@@ -1088,7 +1132,7 @@ def gen_cfg(rng):
         "overwrite": rng.random() < 0.7,
         "overwrite_part": rng.random() < 0.4,
         "rm_part_on_exc": rng.random() < 0.7,
-        "file_perms": rng.choice([None, None, 0o600, 0o644, 0o640, 0o444 | 0o200] + ([0o2640] if special_bits_ok() else [])),
+        "file_perms": gen_perms(rng),
         "text_mode": text,
         "buffering": buffering,
         "part_file": rng.choice([None, None, "custom"]),
@@ -1200,7 +1244,9 @@ def generate(rng, tier, n):
             body.insert(rng.randint(0, max(0, len(body) - (1 if body and body[-1][0] == "r" else 0))), ["cd"])
         if rng.random() < 0.06:
             body = misuse(rng, body)
-        case = {"cfg": cfg, "umask": rng.choice([0o022, 0o022, 0o077, 0, 0o027]), "init": init, "body": body,
+        umask = rng.choice([0o022, 0o022, 0o077, 0, 0o027])
+        resolve_perms(cfg, umask)
+        case = {"cfg": cfg, "umask": umask, "init": init, "body": body,
                 "body_exc": rng.random() < 0.12, "sched": [], "crash": "all", "retry": False}
         r2 = rng.random()
         if r2 < 0.12:
